@@ -10,7 +10,7 @@ PROP = "C17"
 NEED_JSONSCHEMA = True
 SHARDS = {"quick": 8, "thorough": 16}
 TIME_CAP = {"quick": 70, "thorough": 900}
-REQUIRED = ["schemas_generated", "meta_schema_checks", "refs_resolved", "extraction_set_checks_all_refs_false", "extraction_set_checks_all_refs_true",
+REQUIRED = ["generic_type_name_checks", "schemas_generated", "meta_schema_checks", "refs_resolved", "extraction_set_checks_all_refs_false", "extraction_set_checks_all_refs_true",
             "definitions_schema_checks", "recursive_programs", "shared_named_type_programs", "type_name_override_programs", "name_collision_programs",
             "custom_ref_factory_checks", "cycle_checks", "conversion_schema_checks", "multi_entry_definitions_checks", "multi_entry_collision_checks", "serialization_schemas", "deserialization_schemas", "discriminated_families", "discriminated_extraction_checks", "discriminator_mapping_refs_checked"]
 RULE = ("C01 program space + std types + dataclasses with type_name overrides (string / None), shared named types (used 1, 2, 3 times), (mutually) recursive classes "
@@ -394,6 +394,76 @@ def check_conversions(env, n):
             harness.reset_all()
 
 
+GENERIC_NAMES = """
+from dataclasses import dataclass, field
+from typing import Generic, List, Optional, TypeVar
+from apischema import type_name
+T = TypeVar("T")
+
+@type_name(lambda tp, arg: f"{{arg.__name__}}Resource{n}")
+@dataclass
+class Resource{n}(Generic[T]):
+    items: List[T]
+    first: Optional[T] = None
+
+@type_name(lambda tp, *args: "Pair{n}Of" + "And".join(a.__name__ for a in args) if args else None)
+@dataclass
+class Pair{n}(Generic[T]):
+    left: T
+    right: T
+
+@dataclass
+class Holder{n}:
+    ints: Resource{n}[int]
+    strs: Resource{n}[str]
+    more: Optional[Resource{n}[int]] = None
+    bare: Optional[Resource{n}] = None
+    pair: Optional[Pair{n}[int]] = None
+"""
+
+
+def check_generic_names(env, n):
+    """generic classes named by a type_name factory: each specialisation gets its own definition, the unspecialised class has no
+    name (the factory cannot be called without arguments) and is inlined"""
+    import sys
+    import types
+    from apischema.json_schema import definitions_schema, deserialization_schema, serialization_schema
+    from vf import jsonschema_o as jo
+
+    name = f"vfgn_{env.shard}_{n}"
+    mod = types.ModuleType(name)
+    sys.modules[name] = mod
+    src = GENERIC_NAMES.format(n=n)
+    harness.reset_all()
+    try:
+        exec(compile(src, f"<{name}>", "exec"), mod.__dict__)
+        R, P, H = getattr(mod, f"Resource{n}"), getattr(mod, f"Pair{n}"), getattr(mod, f"Holder{n}")
+        cases = [("Resource[int]", R[int], {f"intResource{n}"}), ("Resource (bare)", R, set()), ("Holder", H, {f"intResource{n}", f"strResource{n}", f"Pair{n}Ofint", f"Holder{n}"}),
+                 ("List[Resource[str]]", mod.List[R[str]], {f"strResource{n}"}), ("Pair (bare)", P, set())]
+        for label, T_, want_all in cases:
+            for fn in (deserialization_schema, serialization_schema):
+                for all_refs in (True, False):
+                    o = harness.call(fn, T_, all_refs=all_refs)
+                    env.count("generic_type_name_checks")
+                    env.case("generic-names", label, fn.__name__, all_refs)
+                    wit = {"program": src, "type": label, "entry": fn.__name__, "all_refs": all_refs}
+                    if o.kind != "ok":
+                        env.violation({"kind": "generation-failed", "family": "generic-type-name", "exc": o.exc or "ValidationError", "site": o.site}, {**wit, "outcome": o.brief()})
+                        continue
+                    doc = json.loads(json.dumps(o.value))
+                    defs = doc.get("$defs", {})
+                    for _, ref in jo.refs_of(doc):
+                        if ref[len("#/$defs/"):] not in defs:
+                            env.violation({"kind": "dangling-ref", "family": "generic-type-name"}, {**wit, "ref": ref, "schema": doc})
+                    if all_refs and set(defs) != want_all:
+                        env.violation({"kind": "extraction-set", "family": "generic-type-name", "all_refs": True, "missing": bool(want_all - set(defs)), "unexpected": bool(set(defs) - want_all)},
+                                      {**wit, "emitted": sorted(defs), "expected": sorted(want_all), "schema": doc})
+                    if jo.meta_errors(doc, "2020-12"):
+                        env.violation({"kind": "meta-schema", "family": "generic-type-name"}, {**wit, "schema": doc})
+    finally:
+        sys.modules.pop(name, None)
+
+
 def check_multi_entry(env, prog, label):
     """definitions_schema over several entry types: use counts accumulate over the entries"""
     from apischema.json_schema import definitions_schema
@@ -449,6 +519,8 @@ def run(env):
             prog.unload()
     for j in range(env.n(24, 200)):
         check_collision(env, j)
+    if env.shard == 0:
+        check_generic_names(env, 0)
     for j in range(env.n(24, 200)):
         check_conversions(env, j)
 
